@@ -5,7 +5,7 @@
 From Coq Require Import List NArith Bool Arith Lia.
 From SWH.lib Require Import Bytes.
 From SWH.model Require Import Merkle.
-From SWH.proofs Require Import MerkleBase.
+From SWH.proofs Require Import MerkleBase MerkleStep.
 Import ListNotations.
 Local Open Scope nat_scope.
 
@@ -61,6 +61,7 @@ Definition guard_b (s : heap) (o : op) : bool :=
   existsb (fun rl => ranked_b rl (fst (step NH by_id old s o))) cands &&
   match o with
   | OUpdate p l => nodup_b (map fst l) && forallb (fun nc => plain_b (fst nc) && (snd nc <? length s)) l
+  | OWrite _ _ => false
   | _ => true
   end.
 Fixpoint guarded_b (s : heap) (h : list op) : bool :=
@@ -73,7 +74,7 @@ Lemma guard_b_sound : forall s o, guard_b s o = true -> guard NH by_id old s o.
 Proof.
   intros s o H. apply andb_true_iff in H. destruct H as [A B]. split.
   - apply existsb_exists in A. destruct A as (rl & _ & Hr). exists (rank_of rl). apply (proj1 (ranked_b_sound rl _ Hr)).
-  - destruct o; auto. apply andb_true_iff in B. destruct B as [ND F]. split; [apply nodup_b_sound; exact ND|].
+  - destruct o; auto; try discriminate. apply andb_true_iff in B. destruct B as [ND F]. split; [apply nodup_b_sound; exact ND|].
     intros name c Hin. rewrite forallb_forall in F. specialize (F (name, c) Hin). simpl in F.
     apply andb_true_iff in F. destruct F as [P L]. split; [apply plain_b_sound; exact P | apply Nat.ltb_lt; exact L].
 Qed.
@@ -217,10 +218,15 @@ Qed.
 (* non-vacuity: a diamond with two structurally equal parents sharing a
    child, bulk update, delete, forced update inside the diamond, collects and
    a reset - every guard holds *)
-Definition h_diamond : list op :=
+Definition h_diamond0 : list op :=
   h_shared ++
   [OHash 3; OUpdate 2 [(na, 4); (nc, 0)]; OForce 1; OCollect 3; OCollect 3; ODel 2 na;
    OCollect 3; OReset 3; OCollect 3; OHash 3].
+(* then a PARTIAL reset, at the inner node p2 = 2 (below it: c = 0 and y = 4),
+   a read, a collect elsewhere (at the leaf y), a mutation making c shared
+   again, and a collect from the root *)
+Definition h_mid : list op := [OHash 3; OCollect 4; OSet 1 nc 0].
+Definition h_diamond : list op := h_diamond0 ++ [OReset 2] ++ h_mid ++ [OCollect 3].
 
 Lemma guards_satisfiable :
   guarded NH0 true false [] h_diamond /\
@@ -251,4 +257,108 @@ Lemma c14_satisfiable :
 Proof.
   split; [apply id_oracle_ok|].
   split; [apply (guarded_b_sound NH0 true false cands0); vm_compute; reflexivity|]. vm_compute. reflexivity.
+Qed.
+
+(* ---- partial reset: the hypotheses of reset_partial are satisfiable (reset at
+   the inner node 2 of the diamond, node x = 0 below it, three operations in
+   between including a collect that does not have x below it, collect at the
+   root 3), and its conclusion is observed *)
+Set Default Timeout 120.
+Ltac edge_tac := eexists; eexists; split; [vm_compute; reflexivity | vm_compute; eauto 6].
+
+Lemma reset_partial_satisfiable :
+  let s := fst (grun NH0 true false id_oracle [] [] h_diamond0) in
+  let rep := snd (grun NH0 true false id_oracle [] [] h_diamond0) in
+  let s1 := fst (step NH0 true false s (OReset 2)) in
+  let s2 := final NH0 true false s1 h_mid in
+  greach NH0 id_oracle s rep /\ guard NH0 true false s (OReset 2) /\ Reach s 2 0 /\
+  guarded NH0 true false s1 h_mid /\ quiet NH0 true false s1 h_mid 0 /\ Reach s2 3 0 /\
+  exists s3 L, step NH0 true false s2 (OCollect 3) = (s3, OutNodes L) /\ In 0 L.
+Proof.
+  intros s rep s1 s2. split; [|split; [|split; [|split; [|split; [|split]]]]].
+  - exists h_diamond0. split; [apply (guarded_b_sound NH0 true false cands0); vm_compute; reflexivity|].
+    unfold s, rep. apply surjective_pairing.
+  - apply (guard_b_sound NH0 true false cands0). vm_compute. reflexivity.
+  - eapply Reach_step; [edge_tac|]. apply Reach_refl. vm_compute. lia.
+  - apply (guarded_b_sound NH0 true false cands0). vm_compute. reflexivity.
+  - unfold h_mid. cbn [quiet]. split; [intros r Hr; discriminate|]. split.
+    + intros r Hr. inversion Hr; subst. intro R. inversion R; subst.
+      destruct H as (y & nm & E & Hin). vm_compute in E. inversion E; subst. vm_compute in Hin. contradiction.
+    + split; [intros r Hr; discriminate | exact Logic.I].
+  - eapply Reach_step; [edge_tac|]. eapply Reach_step; [edge_tac|]. apply Reach_refl. vm_compute. lia.
+  - eexists. eexists. split; [vm_compute; reflexivity|]. vm_compute. auto 6.
+Qed.
+
+(* ---- the seeded mutant collect_early (return at once when the start node is
+   already collected) breaks "collect reports every uncollected node below":
+   a = 0 -> b = 1 -> c = 2; collect a; reset b; then collect_early a returns
+   nothing although b and c are below a and not collected.  (The first
+   collect, at an uncollected node, is computed identically by the mutant.) *)
+Definition h_chain : list op :=
+  [ONew KNode kx; ONew KNode ky; ONew KNode kr; OSet 1 nc 2; OSet 0 nb 1; OCollect 0].
+
+Lemma collect_early_refuted :
+  exists NH h n r x,
+    guarded NH true false [] (h ++ [OReset n]) /\
+    let s := final NH true false [] h in
+    let s1 := fst (step NH true false s (OReset n)) in
+    Reach s n x /\ Reach s1 r x /\
+    (forall y, nth_error s1 x = Some y -> collected y = false) /\
+    (exists L, collect NH false (S (length s1)) r s1 = Ok (fst (step NH true false s1 (OCollect r)), L) /\ In x L) /\
+    exists s' L, collect_early NH false (S (length s1)) r s1 = Ok (s', L) /\ ~ In x L.
+Proof.
+  exists NH0, h_chain, 1, 0, 2.
+  split; [apply (guarded_b_sound NH0 true false [[]; [2; 1; 0]]); vm_compute; reflexivity|].
+  intros s s1. split; [|split; [|split; [|split]]].
+  - eapply Reach_step; [edge_tac|]. apply Reach_refl. vm_compute. lia.
+  - eapply Reach_step; [edge_tac|]. eapply Reach_step; [edge_tac|]. apply Reach_refl. vm_compute. lia.
+  - intros y E. vm_compute in E. inversion E; subst. reflexivity.
+  - eexists. split; [vm_compute; reflexivity|]. vm_compute. auto.
+  - eexists. exists []. split; [vm_compute; reflexivity|]. intros [].
+Qed.
+
+(* ---- the seeded mutant force_lazy (update_hash(force=True) invalidating only
+   the node it is called on and recomputing the subtree without invalidating
+   it) loses out-of-band changes: a = 0 -> b = 1 -> c = 2, collect a, write
+   c.data, force at a, collect a.  With the real forced update the second
+   collect returns a, b and c; with the mutant it returns a only, although the
+   hashes of b and c have changed: their new hashes are never reported. *)
+Definition kw : bytes := [119%N].
+Lemma force_lazy_refuted :
+  exists NH h n r d,
+    guarded NH true false [] h /\
+    let s := final NH true false [] h in
+    let s1 := fst (step NH true false s (OWrite n d)) in
+    Reach s r n /\
+    (* the code *)
+    (exists L, snd (step NH true false (fst (step NH true false s1 (OForce r))) (OCollect r)) = OutNodes L /\ In n L) /\
+    (* the mutant *)
+    exists s2 hv s3 L, force_lazy NH false r s1 = Ok (s2, hv) /\
+      collect NH false (S (length s2)) r s2 = Ok (s3, L) /\ ~ In n L /\
+      hash_of s3 n <> hash_of s n /\ fresh_fn NH 10 s3 n = Some (hash_of s3 n).
+Proof.
+  exists NH0, h_chain, 2, 0, kw.
+  split; [apply (guarded_b_sound NH0 true false [[]; [2; 1; 0]]); vm_compute; reflexivity|].
+  intros s s1. split; [|split].
+  - eapply Reach_step; [edge_tac|]. eapply Reach_step; [edge_tac|]. apply Reach_refl. vm_compute. lia.
+  - eexists. split; [vm_compute; reflexivity|]. vm_compute. auto.
+  - eexists. eexists. eexists. eexists. split; [vm_compute; reflexivity|]. split; [vm_compute; reflexivity|].
+    split; [vm_compute; intros [H|[]]; discriminate|]. split; [vm_compute; discriminate | vm_compute; reflexivity].
+Qed.
+
+(* non-vacuity of the write / force theorems: in the chain a -> b -> c (after a
+   collect at a) the root a dominates the ancestors of c *)
+Lemma write_force_satisfiable :
+  let s := final NH0 true false [] h_chain in
+  guarded NH0 true false [] h_chain /\ 2 < length s /\ Reach s 0 2 /\
+  (forall a, Reach s a 2 -> Reach s 0 a \/ Reach s a 0).
+Proof.
+  intro s. split; [apply (guarded_b_sound NH0 true false [[]; [2; 1; 0]]); vm_compute; reflexivity|].
+  split; [vm_compute; lia|].
+  assert (R01 : Reach s 0 1) by (eapply Reach_step; [edge_tac|]; apply Reach_refl; vm_compute; lia).
+  assert (R12 : Reach s 1 2) by (eapply Reach_step; [edge_tac|]; apply Reach_refl; vm_compute; lia).
+  assert (R02 : Reach s 0 2) by (eapply Reach_step; [edge_tac|]; exact R12).
+  split; auto. intros a Ra. left. destruct (Reach_lt _ _ _ Ra) as [La _].
+  assert (L3 : length s = 3) by (vm_compute; reflexivity). rewrite L3 in La.
+  destruct a as [|[|[|a]]]; [apply Reach_refl; rewrite L3; lia | exact R01 | exact R02 | lia].
 Qed.
